@@ -10,3 +10,7 @@ import SophtVerif.Gen.Table
 import SophtVerif.Props.C04
 import SophtVerif.Props.C05
 import SophtVerif.Props.C12
+import SophtVerif.Model.Prog2D
+import SophtVerif.Lemmas.Prog2D
+import SophtVerif.Props.C13
+import SophtVerif.Props.C20
